@@ -1272,9 +1272,7 @@ fn corr_curvedist(r: &mut Rng, thorough: bool, o: &mut Out) {
         o.case(14, "curvedist-sample-params", vec![s, e], ts, true, if res.is_some() { "accepted" } else { "rejected" });
         done += 1;
     }
-    // TODO(hook hooks/C18-curvedist-samples.diff, not yet in /repo): the retained samples and the `spicy` flag.
-    // Enable once `kurbo::verif::verif_curvedist_samples` exists (tested with KV_REPO on a scratch worktree):
-    /*
+    // the retained samples and the `spicy` flag, through the hook `kurbo::verif::verif_curvedist_samples` (commit aa720b2)
     for _ in 0..n {
         let size = *r.pick(&[1.0, 10.0, 100.0]);
         let base = match r.below(4) {
@@ -1302,7 +1300,6 @@ fn corr_curvedist(r: &mut Rng, thorough: bool, o: &mut Out) {
             o.case(15, "curvedist-samples", args, obs, true, if spicy { "spicy" } else { "calm" });
         }
     }
-    */
 }
 
 fn corr(r: &mut Rng, thorough: bool, o: &mut Out) {
